@@ -142,18 +142,25 @@ Proof.
 Qed.
 
 Lemma first_not_quiet_none : forall norig cp md cs i, first_not_quiet norig cp md cs i = None ->
-  forall c, In c cs -> 0 <= slack_of md c.
+  forall k c, nth_error cs k = Some c -> held_to_account norig cp (i + Z.of_nat k) = true -> 0 <= slack_of md c.
 Proof.
-  intros norig cp md cs. induction cs as [|c r IH]; intros i H x Hx; [destruct Hx|].
-  cbn [first_not_quiet] in H. destruct (quiet_constr ((i <? norig) || negb cp) md c) eqn:E; [|discriminate].
-  destruct Hx as [<-|Hx]; [exact (proj1 (quiet_constr_spec _ _ _ E))|]. exact (IH _ H x Hx).
+  intros norig cp md cs. induction cs as [|c r IH]; intros i H k x Hx Hk; [destruct k; discriminate|].
+  cbn [first_not_quiet] in H.
+  destruct (negb (held_to_account norig cp i) || quiet_constr true md c) eqn:E; [|discriminate].
+  destruct k as [|k].
+  - cbn [nth_error] in Hx. injection Hx as <-. rewrite Z.add_0_r in Hk. rewrite Hk in E. cbn [negb orb] in E.
+    exact (proj1 (quiet_constr_spec _ _ _ E)).
+  - cbn [nth_error] in Hx. apply (IH (i + 1) H k x Hx).
+    replace (i + 1 + Z.of_nat k) with (i + Z.of_nat (S k)) by (rewrite Nat2Z.inj_succ; ring). exact Hk.
 Qed.
 
-(* An Ok on a quiet snapshot: the state is a good state and no constraint held by the solver is falsified by it. *)
+(* An Ok on a quiet snapshot: the state is a good state and no constraint held to account (the original ones; every one
+   under the CDCL loop) is falsified by it. *)
 Lemma judge_quiet_snap_sound : forall sn i,
   judge_quiet_snap sn = Ok i ->
   Proofs.Learn.state_ok (mk_state (sn_trail sn) (sn_model sn) (sn_reasons sn) (sn_assum sn)) (sn_lvl sn) /\
-  forall c, In c (sn_constrs sn) -> 0 <= slack_of (sn_model sn) c.
+  forall k c, nth_error (sn_constrs sn) k = Some c ->
+              held_to_account (sn_norig sn) (sn_cp sn) (Z.of_nat k) = true -> 0 <= slack_of (sn_model sn) c.
 Proof.
   intros sn i H. unfold judge_quiet_snap in H.
   match type of H with (if ?c then _ else _) = _ => destruct c; [discriminate|] end.
@@ -162,5 +169,5 @@ Proof.
     cbn [negb] in H; [|discriminate].
   split; [exact (state_okb_sound _ _ _ _ _ Es)|].
   destruct (first_not_quiet (sn_norig sn) (sn_cp sn) (sn_model sn) (sn_constrs sn) 0) eqn:E; [discriminate|].
-  exact (first_not_quiet_none _ _ _ _ _ E).
+  intros k c Hk Hh. exact (first_not_quiet_none _ _ _ _ _ E k c Hk Hh).
 Qed.
